@@ -8,8 +8,8 @@ from .common import exceptions
 from .defnorm import accepted_data_types
 
 EXPL = ('Fill-value rules on the skip branch of the FSR writer (NaN stores for float types, zero fill otherwise), set-of-constants '
-        'evaluation of the scratch-buffer sample count against the scratch size for every accepted data type, degenerate '
-        '(identically zero) advance/shift expressions in the overlap branch per sub-byte width, non-finite filtering of every '
+        'evaluation of the scratch-buffer sample count against the scratch size for every accepted data type, exactness of the '
+        'overlap skip (8 * byte advance + bit shift == overlap * width) per width and overlap length, non-finite filtering of every '
         'accumulating statement in the summary reductions and of the reader-side entry-to-accumulator conversion, and the scratch '
         'subscript bound.')
 NOT_DECIDED = 'Exact read-back of all other samples and the length arithmetic (ffwd subtraction) are value arithmetic.'
@@ -42,11 +42,11 @@ def run(ctx, sess):
     fd = FD(P)
     ctx.rule('C09.1', 'fill values: in the skip branch every store into the scratch under a float data type is NaN; other types zero the whole scratch')
     ctx.rule('C09.2', 'scratch bound: for every accepted data type the sample count handed to the block writer with the scratch satisfies ceil(count * width / 8) <= sizeof(scratch)')
-    ctx.rule('C09.3', 'no degenerate advance: in the overlap branch no pointer-advance or shift expression that depends on the overlap length is identically zero for a feasible sample width')
+    ctx.rule('C09.3', 'the overlap is skipped exactly: in the overlap branch 8 * (byte advance of the data pointer) + (bit shift) equals overlap * width, and the shift is below 8, for every accepted sample width and every overlap length 1..64 (finite-domain evaluation of the branch\'s own expressions)')
     ctx.rule('C09.4', 'non-finite values are skipped at every level: each accumulating statement of the summary reductions is control dependent on an isfinite test, and the reader converts a non-finite summary entry to an empty accumulator')
     ctx.rule('C09.6', 'single packer: every function that adds entries to the level-0 sample block also honours the pending partial byte (reads shift_amount), i.e. goes through the bit packer')
     ctx.rule('C09.7', 'level-0 data is left out only on request or when a predicate that examines every byte of the block said it is constant')
-    ctx.rule('C09.5', 'scratch subscripts stay inside the scratch array')
+    ctx.rule('C09.5', 'scratch subscripts stay inside the scratch array: every subscript of the scratch, directly or through a local pointer initialised from it, has an upper bound (loop condition, min-clamp, per-width evaluation) inside its 32 KiB')
     f = P.fn('jls_wr_fsr_data')
     ctx.saw(f)
     rec = P.record('jls_core_fsr_s')
@@ -78,10 +78,19 @@ def run(ctx, sess):
         raise AnalysisBroken('JLS_DATATYPE_BASETYPE_FLOAT not a plain constant: %r' % fl)
     floats = [dt for dt in dts if fd.call(pbase, [dt]) == FLOAT]
     nan_stores = 0
+    # blocks from which a gap-writing call is reachable (the overlap branch returns before them)
+    can_reach_skip = set()
+    work = [c.block.id for c in skip_calls]
+    while work:
+        bid = work.pop()
+        if bid in can_reach_skip:
+            continue
+        can_reach_skip.add(bid)
+        work.extend(p_.id for p_, _ in f.blocks[bid].preds)
     for ev in f.stores():
         lhs, rhs, o = ev.store_parts()
         l0 = strip_casts(lhs)
-        if l0.get('op') != 'sub':
+        if l0.get('op') != 'sub' or ev.block.id not in can_reach_skip:
             continue
         base = strip_casts(l0['k'][0])
         if base.get('op') != 'ref':
@@ -171,57 +180,93 @@ def run(ctx, sess):
                         and strip_casts(c['k'][1]).get('name') == 'buf_sz':
                     clamp = True
             ctx.ob('C09.2', clamp, f.name, 'count only ever lowered to the remaining gap', d.where(), 'buf_sz = %s under %s < buf_sz: %s' % (show(rhs), show(rhs), clamp))
-    # ---- C09.3
+    # ---- C09.3: the overlap length `ov` (the difference of the expected and the submitted sample id) is skipped
+    # exactly: for every accepted width w and every overlap 1..64, 8 * (byte advance) + (bit shift) == ov * w, shift < 8
     n3 = 0
-    sub_widths = sorted(set(fd.call(psz, [dt]) for dt in dts if fd.call(psz, [dt]) < 8))
     all_widths = sorted(set(fd.call(psz, [dt]) for dt in dts))
+    ov = None
     for ev in f.stores():
         lhs, rhs, o = ev.store_parts()
-        if rhs is None:
-            continue
-        names = set(nd.get('name') for nd in walk(rhs) if nd.get('op') == 'ref')
-        if 'ffwd' not in names:
-            continue
-        tgt = strip_casts(lhs).get('name')
-        if tgt not in ('shift', 'data', 'shift_samples'):
-            continue
-        n3 += 1
-        # feasible widths: controlling conditions on the sample size evaluated per width
-        feasible = []
-        for w in all_widths:
-            ok = True
-            for (bid, label) in control_deps_transitive(f, ev.block.id):
-                c = f.blocks[bid].cond
-                if c is None or label not in ('T', 'F'):
-                    continue
-                try:
-                    v = fd.ev(f, c, {ssb: w})
-                except (Top, ZeroDivisionError):
-                    continue
-                if bool(v) != (label == 'T'):
-                    ok = False
-            if ok:
-                feasible.append(w)
-        degenerate = []
-        for w in feasible:
-            vals = set()
-            for ff in range(1, 33):
-                try:
-                    e2 = rhs
-                    # pointer arithmetic data_u8 + X : evaluate X
-                    r0 = strip_casts(rhs)
-                    if r0.get('op') == 'bin' and r0['o'] == '+' and r0.get('t', '').startswith('p'):
-                        e2 = r0['k'][1]
-                    vals.add(fd.ev(f, e2, {ssb: w, 'ffwd': ff}))
-                except (Top, ZeroDivisionError):
-                    vals.add(None)
-            if vals == {0}:
-                degenerate.append(w)
-        k = 'overlap %s = %s' % (tgt, show(rhs)[:50])
-        ctx.ob('C09.3', not degenerate, f.name, k, ev.where(),
-               'depends on the overlap for widths %s' % feasible if not degenerate else
-               'identically 0 for width(s) %s although it should skip the overlapped samples: a sub-byte overlap appends the beginning of the new data again' % degenerate)
-    ctx.floor('overlap advance expressions', n3, 3)
+        r0 = strip_casts(rhs) if rhs is not None else None
+        if r0 is not None and r0.get('op') == 'bin' and r0['o'] == '-' and o == '=' and \
+                {strip_casts(k).get('name') for k in r0['k']} == {'sample_id_next', 'sample_id'}:
+            ov = strip_casts(lhs).get('name')
+            ov_ev = ev
+    if ov is None:
+        raise AnalysisBroken('overlap length (sample_id_next - sample_id) not found in jls_wr_fsr_data')
+    # stores in the overlap branch (dominated by the overlap definition), in source order
+    branch = sorted([ev for ev in f.stores() if ev is not ov_ev and ev_dominates(ov_ev, ev)], key=lambda e_: (e_.ln, e_.idx))
+    derived = {ov}
+    for ev in branch:
+        lhs, rhs, o = ev.store_parts()
+        if rhs is not None and o == '=' and any(nd.get('op') == 'ref' and nd.get('name') in derived for nd in walk(rhs)):
+            l0 = strip_casts(lhs)
+            if l0.get('op') == 'ref' and not l0.get('t', '').startswith('p:'):
+                derived.add(l0['name'])
+    ptr_adv = [ev for ev in branch if strip_casts(ev.store_parts()[0]).get('op') == 'ref' and strip_casts(ev.store_parts()[0]).get('t', '').startswith('p:')
+               and ev.store_parts()[1] is not None and any(nd.get('op') == 'ref' and nd.get('name') in derived and not nd.get('t', '').startswith('p:') for nd in walk(ev.store_parts()[1]))]
+    shift_uses = set()
+    for b2 in f.blocks.values():
+        for e2 in [ev.e for ev in b2.events if ev.e is not None] + ([b2.cond] if b2.cond is not None else []):
+            for nd in walk(e2):
+                if nd.get('op') == 'bin' and nd['o'] in ('>>', '<<'):
+                    r1 = strip_casts(nd['k'][1])
+                    if r1.get('op') == 'ref' and r1.get('name') in derived:
+                        shift_uses.add(r1['name'])
+    bad3 = []
+    checked = 0
+    for w in all_widths:
+        for ff in range(1, 65):
+            env = {ssb: w, ov: ff}
+            adv_bytes = None
+            try:
+                for ev in branch:
+                    lhs, rhs, o = ev.store_parts()
+                    l0 = strip_casts(lhs)
+                    if rhs is None or l0.get('op') != 'ref' or (l0.get('name') not in derived and ev not in ptr_adv):
+                        continue
+                    # only definitions whose controlling width conditions hold for w
+                    feasible = True
+                    for (bid, label) in control_deps_transitive(f, ev.block.id):
+                        c = f.blocks[bid].cond
+                        if c is None or label not in ('T', 'F'):
+                            continue
+                        try:
+                            v = fd.ev(f, c, env)
+                        except (Top, ZeroDivisionError, KeyError):
+                            continue
+                        if bool(v) != (label == 'T'):
+                            feasible = False
+                    if not feasible:
+                        continue
+                    if l0.get('t', '').startswith('p:'):
+                        if ev not in ptr_adv:
+                            continue
+                        r0 = strip_casts(rhs)
+                        x = rhs
+                        if o == '=' and r0.get('op') == 'bin' and r0['o'] == '+':
+                            x = r0['k'][1] if strip_casts(r0['k'][0]).get('t', '').startswith('p:') else r0['k'][0]
+                        adv_bytes = (adv_bytes or 0) + fd.ev(f, x, env)
+                    elif o == '=':
+                        try:
+                            env[l0['name']] = fd.ev(f, rhs, env)
+                        except Top:
+                            pass        # depends on more than the overlap: not part of the skip
+            except (Top, ZeroDivisionError, KeyError) as ex:
+                bad3.append('width %d, overlap %d: %s not evaluable with %s' % (w, ff, show(ev.e)[:60], sorted(env)))
+                continue
+            sh = max([env.get(nm, 0) for nm in shift_uses] or [0])
+            checked += 1
+            if adv_bytes is None:
+                adv_bytes = 0
+            if 8 * adv_bytes + sh != ff * w or sh >= 8:
+                bad3.append('width %d, overlap %d samples: advances %d bytes and shifts %d bits = %d bits, should skip %d' % (w, ff, adv_bytes, sh, 8 * adv_bytes + sh, ff * w))
+    n3 = len(ptr_adv) + len(shift_uses)
+    ctx.ob('C09.3', not bad3, f.name, 'overlap skip = byte advance (%s) + bit shift (%s)' % (', '.join(show(e_.e)[:40] for e_ in ptr_adv), ', '.join(sorted(shift_uses)) or 'none'),
+           ov_ev.where(), '8 * advance + shift == overlap * width for %d (width, overlap) pairs' % checked if not bad3 else
+           '; '.join(bad3[:3]) + (' (+%d more)' % (len(bad3) - 3) if len(bad3) > 3 else '') + ': the overlapped samples are not skipped exactly')
+    ctx.floor('overlap advance/shift expressions', n3, 2)
+    ctx.floor('overlap (width, length) pairs evaluated', checked, 64)
     # ---- C09.4 writer
     nacc = 0
     for fname in ('jls_core_fsr_summary1', 'jls_core_fsr_summaryN'):
@@ -275,43 +320,123 @@ def run(ctx, sess):
                    'k depends on isfinite(entry)' if ok else
                    'a non-finite (all-gap) summary entry is combined with weight `count`: statistics over a window containing a gap return NaN mean/std and min/max of 0')
     ctx.floor('summary-entry converters in reader.c', nconv, 2)
-    # ---- C09.5
+    # ---- C09.5: every subscript of the scratch (directly or through a local pointer initialised from it) stays inside it
     n5 = 0
+    ESZ = {'p:u8': 1, 'p:i8': 1, 'p:f32': 4, 'p:f64': 8, 'p:u64': 8, 'p:u16': 2, 'p:u32': 4}
+    aliases = {}
+    for d in f.stores():
+        if d.k == 'decl' and d.e is not None and (d.t or '').startswith('p:') and \
+                any(nd.get('op') == 'member' and nd.get('field') == 'buffer_u64' for nd in walk(d.e)):
+            aliases[d.name] = ESZ.get(d.t)
+    lp = loops(f)
+
+    def ub(e, block, idx, w, depth=0):
+        """upper bound of an unsigned expression for sample width w (None = unbounded)"""
+        e0 = strip_casts(e)
+        if e0 is None or depth > 10:
+            return None
+        try:
+            return fd.ev(f, e0, {ssb: w})
+        except (Top, ZeroDivisionError, KeyError):
+            pass
+        op = e0.get('op')
+        if op == 'ref' and e0.get('rk') == 'local':
+            # loop variable: bounded by its loop condition  v < N
+            for h, body in lp.items():
+                if block.id in body:
+                    c = strip_casts(f.blocks[h].cond) if f.blocks[h].cond else None
+                    if c is not None and c.get('op') == 'bin' and c['o'] in ('<', '<=') and strip_casts(c['k'][0]).get('name') == e0['name']:
+                        if block.id != h or True:
+                            n_ub = ub(c['k'][1], f.blocks[h], len(f.blocks[h].events), w, depth + 1)
+                            if n_ub is not None:
+                                return n_ub - (1 if c['o'] == '<' else 0)
+            defs, entry = df.reaching_defs(f, e0['name'], block, idx)
+            vals = []
+            for d in defs:
+                lhs, rhs, o = d.store_parts()
+                if rhs is None:
+                    return None
+                if o == '=':
+                    v = ub(rhs, d.block, d.idx, w, depth + 1)
+                elif o == '/=':
+                    a_ = ub(lhs, d.block, d.idx, w, depth + 1)
+                    try:
+                        b_ = fd.ev(f, rhs, {ssb: w})
+                    except (Top, ZeroDivisionError, KeyError):
+                        b_ = None
+                    v = a_ // b_ if (a_ is not None and b_) else None
+                elif o in ('-=',):
+                    v = ub(lhs, d.block, d.idx, w, depth + 1)
+                else:
+                    v = None
+                if v is None:
+                    return None
+                vals.append(v)
+            return max(vals) if vals and not entry else None
+        if op == 'cond':
+            ks = kids(e0)
+            c = strip_casts(ks[0])
+            # min idiom  (x < K) ? x : K
+            if c.get('op') == 'bin' and c['o'] in ('<', '<='):
+                if show(strip_casts(c['k'][0])) == show(strip_casts(ks[1])) and show(strip_casts(c['k'][1])) == show(strip_casts(ks[2])):
+                    return ub(ks[2], block, idx, w, depth + 1)
+            a_, b_ = ub(ks[1], block, idx, w, depth + 1), ub(ks[2], block, idx, w, depth + 1)
+            return max(a_, b_) if a_ is not None and b_ is not None else None
+        if op == 'bin':
+            o = e0['o']
+            a_ = ub(e0['k'][0], block, idx, w, depth + 1)
+            b_ = ub(e0['k'][1], block, idx, w, depth + 1)
+            if o == '+' and a_ is not None and b_ is not None:
+                return a_ + b_
+            if o == '*' and a_ is not None and b_ is not None:
+                return a_ * b_
+            if o == '/' and a_ is not None:
+                try:
+                    d_ = fd.ev(f, e0['k'][1], {ssb: w})
+                    return a_ // d_ if d_ else None
+                except (Top, ZeroDivisionError, KeyError):
+                    return a_
+            if o == '%' and b_ is not None:
+                return b_ - 1
+            if o == '-' and a_ is not None:
+                return a_
+            if o == '>>' and a_ is not None:
+                return a_
+        return None
+
+    all_w = sorted(set(fd.call(psz, [dt]) for dt in dts))
     for b in f.blocks.values():
-        items = [(ev.e, ev) for ev in b.events if ev.e is not None]
-        for e, ev in items:
+        items = [(ev.e, ev, ev.idx) for ev in b.events if ev.e is not None] + ([(b.cond, None, len(b.events))] if b.cond is not None else [])
+        for e, ev, pos in items:
             for nd in walk(e):
-                if nd.get('op') == 'sub' and nd.get('extent') == scratch_words and strip_casts(nd['k'][0]).get('field') == 'buffer_u64':
-                    se = f.sub_event(nd['id']) or ev
-                    idx = strip_casts(nd['k'][1])
-                    c = const_of(idx)
-                    n5 += 1
-                    if c is not None:
-                        ctx.ob('C09.5', 0 <= c < scratch_words, f.name, 'scratch[%d]' % c, se.where(), '')
-                        continue
-                    # index = f(sz) with sz <= sizeof - 8 (clamp) or idx < sz_words
-                    vals = set()
-                    ok = None
-                    names = set(x.get('name') for x in walk(idx) if x.get('op') == 'ref')
-                    if 'sz' in names:
-                        try:
-                            top = fd.ev(f, idx, {'sz': scratch_bytes - 8})
-                            ok = top < scratch_words
-                            detail = 'with sz at its clamp (%d) the index is %d, extent %d' % (scratch_bytes - 8, top, scratch_words)
-                        except (Top, ZeroDivisionError):
-                            ok, detail = False, 'not evaluable'
-                    elif 'idx' in names:
-                        # loop idx < sz_words, sz_words = (sz + 7) / 8 <= (sizeof - 8 + 7) / 8
-                        try:
-                            szw = (scratch_bytes - 8 + 7) // 8
-                            top = fd.ev(f, idx, {'idx': szw - 1})
-                            ok = top < scratch_words
-                            detail = 'largest loop index %d gives %d, extent %d' % (szw - 1, top, scratch_words)
-                        except (Top, ZeroDivisionError):
-                            ok, detail = False, 'not evaluable'
-                    else:
-                        ok, detail = False, 'index %s not understood' % show(idx)
-                    ctx.ob('C09.5', bool(ok), f.name, 'scratch[%s]' % show(idx), se.where(), detail if ok else detail + ': one word past the scratch array')
+                if nd.get('op') != 'sub':
+                    continue
+                base = strip_casts(nd['k'][0])
+                if base.get('op') == 'member' and base.get('field') == 'buffer_u64':
+                    esz = 8
+                elif base.get('op') == 'ref' and base.get('name') in aliases:
+                    esz = aliases[base['name']]
+                else:
+                    continue
+                se = f.sub_event(nd['id']) or ev
+                where = se.where() if se is not None else '%s:%d' % (f.file, b.line)
+                n5 += 1
+                if esz is None:
+                    ctx.ob('C09.5', False, f.name, 'scratch via %s[%s]' % (base.get('name'), show(nd['k'][1])), where, 'element size of %s unknown' % base.get('name'))
+                    continue
+                worst = None
+                for w in all_w:
+                    u = ub(nd['k'][1], b, pos, w)
+                    if u is None:
+                        worst = (w, None)
+                        break
+                    if worst is None or (u + 1) * esz > (worst[1] + 1) * esz:
+                        worst = (w, u)
+                ok5 = worst is not None and worst[1] is not None and (worst[1] + 1) * esz <= scratch_bytes
+                ctx.ob('C09.5', ok5, f.name, 'scratch[%s] via %s' % (show(nd['k'][1]), base.get('name') or 'buffer_u64'), where,
+                       'largest index %s (width %s) x %d bytes within %d' % (worst[1], worst[0], esz, scratch_bytes) if ok5 else
+                       ('index not bounded for width %s' % worst[0] if worst and worst[1] is None else
+                        'index up to %s (width %s) x %d bytes exceeds the %d-byte scratch' % (worst[1], worst[0], esz, scratch_bytes)))
     ctx.floor('scratch subscripts', n5, 3)
 
 
